@@ -390,12 +390,12 @@ class DeserializationMethodVisitor(
         def factory(constraints: Optional[Constraints], _) -> DeserializationMethod:
             from apischema import settings
 
-            value_map = dict(zip(literal_values(values), values))
+            keys = literal_values(values)
             return LiteralMethod(
-                value_map,
-                preformat_error(settings.errors.one_of, list(value_map)),
+                {(isinstance(key, bool), key): val for key, val in zip(keys, values)},
+                preformat_error(settings.errors.one_of, list(keys)),
                 self.coercer,
-                tuple(set(map(type, value_map))),
+                tuple(set(map(type, keys))),
             )
 
         return self._factory(factory)
